@@ -130,6 +130,12 @@ def check_sched(case, ctx: Ctx):
         _, mtie = balmodel.bin_masks(A, offsets, o, diag_weight=dw)
         tol = o["tol"]
         tie = bool(mtie.any()) or any(abs(v - tol) <= 1e-6 * tol for v in ref["variances"])
+        # numerically diverging runs (no convergence, weights/variances overflowing) depend on the order of
+        # floating-point operations: they are only sanity-checked, like ties
+        fin_b = np.isfinite(base_w)
+        if (fin_b.any() and np.any(np.abs(base_w[fin_b]) > 1e60)) or any((not np.isfinite(v)) or v > 1e100 for v in ref["variances"]) \
+                or not np.all(np.isfinite(np.atleast_1d(np.asarray(base_stats["var"], dtype=float))) | np.isnan(np.atleast_1d(np.asarray(base_stats["var"], dtype=float)))):
+            tie = True
 
         def same(w1, w2, what):
             n1, n2 = ~np.isfinite(w1), ~np.isfinite(w2)
